@@ -206,24 +206,3 @@ def run_case(case):
     tl = labels
     nontrivial = ("ref_inside_array" in tl) or ("struct_2plus_dynamic_fields" in tl) or (tg.has_refs(spec) and "struct_nested" in tl)
     return Outcome(True, labels=sorted(labels), nontrivial=nontrivial)
-
-
-# --------------------------------------------------------------------------
-# open known finding: stale item-offset cache of the constructor handle (known_findings.json)
-# --------------------------------------------------------------------------
-
-
-def _root_dynitems(case):
-    """root objects whose handle caches offsets of movable parts: arrays of dynamic items, structs with >= 2 dynamic fields"""
-    sp = case["type"]
-    if sp["k"] == "struct":
-        return sum(1 for _, ft in sp["fields"] if tg.is_dynamic(ft)) >= 2
-    return sp["k"] == "array" and tg.is_dynamic(sp["item"])
-
-
-FINDINGS = {
-    "C09-stale-root-handle": Finding(
-        has_feature=lambda case, out: _root_dynitems(case) and any(op["kind"] == "compound" and op["via"] != "handle" for _, op in case["writes"]),
-        neutralise=lambda case, out: dict(case, writes=[[side, dict(op, via="handle") if op["kind"] == "compound" else op] for side, op in case["writes"]]),
-    )
-}
